@@ -754,6 +754,9 @@ class Client:
         self.idle_obs = {}      # (rel, text hash) -> set of diag multisets seen while the server was idle
         self.nonempty = 0
         self.skipped_ops = 0
+        self.deferred_rescans = 0
+        self.floating = 0          # renames sent during a pending pass whose re-scan task has not shown up (yet)
+        self.late_rescans = 0
 
     def p(self, rel):
         return os.path.join(self.root, rel)
@@ -771,8 +774,23 @@ class Client:
         return len(s.ended) == self.expected and s.held_create is None and len(s.creates) == self.expected
 
     def check_tasks(self):
-        if len(self.srv.creates) > self.expected:
+        extra = len(self.srv.creates) - self.expected
+        if extra > 0 and self.floating >= extra:
+            # the re-scan of a rename sent during a pending pass shows up late (see rename())
+            self.expected += extra
+            self.floating -= extra
+            self.late_rescans += extra
+        elif extra > 0:
             raise Unexpected(f"server created background task #{len(self.srv.creates)} but the client model expects {self.expected}")
+
+    def flush_floating(self, rounds=40):
+        """Server-thread round trips (+ outbound traffic) until no announced-late task is outstanding."""
+        for _ in range(rounds):
+            if not self.floating:
+                break
+            self.srv.barrier()
+            self.srv.will_rename([])
+            self.check_tasks()
 
     def ack(self, rel, uri, version, idle):
         diags = self.srv.wait_publish(uri, version)
@@ -807,8 +825,12 @@ class Client:
         return self.ack(rel, uri, self.version, idle)
 
     def wait(self):
-        self.srv.wait_tasks(self.expected)
-        self.check_tasks()
+        while True:
+            self.srv.wait_tasks(self.expected)
+            before = self.expected
+            self.check_tasks()
+            if self.expected == before:
+                break
 
     def cross_file_effects(self):
         return sum(1 for v in self.idle_obs.values() if len(v) > 1)
@@ -904,10 +926,30 @@ class Client:
         if held:
             # the rename reaches the server thread's queue before the task is released
             s.wait_log("did_rename_files", nlog + 1)
-            s.will_rename([])
-            s.will_rename([])
+            # The handler logs before it forwards the notification and may be parked in tower-lsp's
+            # client channel until later outbound messages are consumed (one parked sender is released
+            # per message; at most ~6 can be ahead of it): make ten more log messages flow.
+            for _ in range(10):
+                s.will_rename([])
             s.release_create()
-            # server.rs did_rename_files(): "Do not dispatch if there's already a pending analysis"
+            # server.rs did_rename_files(): "Do not dispatch if there's already a pending analysis".
+            # Older trees drop the request; since fix f072381 it is remembered and one re-scan task is
+            # created when the queue drains.  Accept both: wait for the tasks that are certain, then three
+            # server-thread round trips -- a deferred task has announced itself (create request) by then.
+            # (Seen in ~3 % of such renames: the Backend forwards the didRenameFiles to the server thread
+            # many round trips late, so its task -- immediate by then -- appears late.  Such a task is
+            # "floating": it is absorbed by check_tasks() whenever it shows up.)
+            s.wait_tasks(self.expected)
+            for _ in range(40):
+                s.barrier()
+                s.will_rename([])
+                if len(s.creates) > self.expected:
+                    break
+            if len(s.creates) == self.expected + 1:
+                self.expected += 1
+                self.deferred_rescans += 1
+            elif len(s.creates) == self.expected:
+                self.floating += 1
         else:
             self.expected += 1
             s.wait_create(self.expected)
@@ -920,15 +962,20 @@ class Client:
 
     # ---- the comparison point ----
     def final_round(self):
-        self.wait()
-        out = {}
-        for rel in sorted(self.open):
-            self.version += 1
-            uri = self.srv.did_change(self.p(rel), self.open[rel], self.version)
-            d = self.srv.wait_publish(uri, self.version)
-            out[rel] = {"set": diag_multiset(d), "version": self.version}
-        self.check_tasks()
-        return out
+        for _ in range(4):
+            self.flush_floating()
+            self.wait()
+            before = self.expected
+            out = {}
+            for rel in sorted(self.open):
+                self.version += 1
+                uri = self.srv.did_change(self.p(rel), self.open[rel], self.version)
+                d = self.srv.wait_publish(uri, self.version)
+                out[rel] = {"set": diag_multiset(d), "version": self.version}
+            self.check_tasks()
+            if self.expected == before:
+                return out          # no late task was announced while the round ran
+        raise Unexpected("late re-scan tasks kept appearing during the final round")
 
 
 def fresh_run(root, home, workdir, name, buffers, timeout):
@@ -1040,6 +1087,9 @@ def run_case(case, scratch, timeout):
         res["nonempty_publishes"] = c.nonempty
         res["cross_file_effects"] = c.cross_file_effects()
         res["skipped_ops"] = c.skipped_ops
+        res["deferred_rescans"] = c.deferred_rescans
+        res["late_rescans"] = c.late_rescans
+        res["floating_left"] = c.floating
         res["open_files"] = len(c.open)
         buffers = dict(c.open)
         # cold reference: H is still alive and holds the cache-ls lock, so this server cannot restore
@@ -1104,7 +1154,11 @@ def run_case(case, scratch, timeout):
         res.update(status="inconclusive", reason=f"timeout: {e}")
         return res
     except Unexpected as e:
-        res.update(status="inconclusive", reason=f"client/server task model diverged: {e}")
+        tail = [f"{t.get('dir')} {t.get('method', 'resp')} {t.get('uri', '')} {t.get('version', '')} "
+                f"{t.get('token', '')} {t.get('kind', '')} {t.get('files', '')}".strip()
+                for t in h.transcript if t.get("kind") != "report"][-45:]
+        res.update(status="inconclusive", reason=f"client/server task model diverged: {e} (at op #{at_op}; "
+                                                  f"hazard {case['cfg'].get('hazard')}); transcript tail: {tail}")
         return res
     except LspError as e:
         res.update(status="inconclusive", reason=f"{type(e).__name__}: {str(e)[-300:]}")
@@ -1163,7 +1217,8 @@ def main():
               "executed to the end, >=2 files were compared against a fresh server and at least one "
               "publishDiagnostics during the history was non-empty; distinct by hash of (project, ops)")
     run.assume("lsp_client.py frames/parses JSON-RPC correctly; 'background complete' = one $/progress end per "
-               "task the server must have created (didOpen: always one; didRename: one iff no analysis pending)")
+               "task the server must have created (didOpen: always one; didRename: one, deferred or -- older trees -- "
+               "dropped when an analysis is pending; both are accepted and detected by 3 server-thread round trips)")
     run.assume("closed files: the client writes the buffer to disk before didClose, so disk == last buffer; "
                "files are only created/changed on disk through notifications the server supports")
     nhist = args.budget("histories", 10, 300)
@@ -1221,6 +1276,9 @@ def main():
             run.count("files_compared", r.get("files_compared", 0))
             run.count("ops_skipped_as_inapplicable", r.get("skipped_ops", 0))
             run.count("background_tasks_observed", r.get("history_tasks", 0))
+            run.count("renames_during_background_rescanned_later", r.get("deferred_rescans", 0))
+            run.count("renames_during_background_forwarded_late", r.get("late_rescans", 0))
+            run.count("renames_during_background_without_task", r.get("floating_left", 0))
             if r.get("nonempty_publishes"):
                 run.count("histories_with_nonempty_diagnostics")
             if r.get("final_nonempty"):
